@@ -392,7 +392,15 @@ pub fn family_cond(_tier: Tier) -> Vec<PProblem> {
                 if with_pickup {
                     jobs.push(job("p", vec![task(Pickup, vec![place(3, 1., &[], None)], &[2])]));
                 }
-                out.push(base(format!("cond/reload/n{n}/l{reload_loc}/p{with_pickup}"), jobs, vec![vehicle_type("v", 1, &[2], vec![s])]));
+                out.push(base(format!("cond/reload/n{n}/l{reload_loc}/p{with_pickup}"), jobs.clone(), vec![vehicle_type("v", 1, &[2], vec![s.clone()])]));
+                // the same with reloads which carry no tag (nothing but their position tells them apart)
+                if n != 4 {
+                    let mut s = s;
+                    for r in s.reloads.iter_mut() {
+                        r.tag = None;
+                    }
+                    out.push(base(format!("cond/reload-untagged/n{n}/l{reload_loc}/p{with_pickup}"), jobs, vec![vehicle_type("v", 1, &[2], vec![s])]));
+                }
             }
         }
     }
